@@ -82,7 +82,12 @@ void h_gadget_rows(void) {
     for (int b = 0; b <= VERIF_K; b++) blocs[b] = rows + b * VERIF_L;
     G.all_sample = rows; G.bloc_sample = blocs;
     int gr, gq; int32_t gj; __CPROVER_assume(gr >= 0 && gr < KPL && gq >= 0 && gq <= VERIF_K && gj >= 0 && gj < N);
-    Torus32 old = polys[gr][gq].coefsT[gj]; int32_t in_msg;
+    Torus32 old = polys[gr][gq].coefsT[gj];
+#ifdef VERIF_MCONST
+    const int32_t in_msg = (VERIF_MCONST);   /* enumerated message (symbolic 32x32 multipliers are not decided, DESIGN 8.2) */
+#else
+    int32_t in_msg;
+#endif
     Torus32 hh = h[gr % VERIF_L];
 #ifdef ROWS_INT
     tGswAddMuIntH(&G, in_msg, &gp);
@@ -127,7 +132,7 @@ void h_tgsw_rowwise(void) {
 #define DEC_MASK ((1u << VERIF_BGBIT) - 1u)
 #define DEC_W(q) (1u << (32 - ((q) + 1) * VERIF_BGBIT))
 void h_lemma_truncation(void) {
-    uint32_t in_x, in_m; uint32_t off = 0;
+    uint32_t in_x; const uint32_t in_m = (uint32_t)(VERIF_MCONST); uint32_t off = 0;
     for (int q = 0; q < VERIF_L; q++) off += DEC_W(q);
     off *= (uint32_t)DEC_HALFBG;
     uint32_t v = in_x + off, acc = 0, rec = 0;
